@@ -937,7 +937,7 @@ def analytic(c, f, dims, op):
 def stats(records):
     out = dict(refused=0, accepted=0, unbuildable=0, rot90_checked=0, masked=0, periodic=0, scale=0,
                unspecified_outcome=0)
-    byop = {}
+    byop, streams, dtypes, steps, skipped = {}, {}, {}, {}, 0
     for r in records:
         c = r["case"]
         if r["kind"] == "unbuildable":
@@ -950,5 +950,12 @@ def stats(records):
         out["scale"] += int(c["regime"] == "scale")
         out["unspecified_outcome"] += int(r.get("coq") is None)
         byop[c["op"]] = byop.get(c["op"], 0) + 1
-    out["by_op"] = byop
+        streams[c.get("stream", "base")] = streams.get(c.get("stream", "base"), 0) + 1
+        if c.get("dtype"):
+            dtypes[c["dtype"]] = dtypes.get(c["dtype"], 0) + 1
+        for s_ in c.get("pre", []):
+            steps[s_[0]] = steps.get(s_[0], 0) + 1
+        if r.get("meta_pre"):
+            skipped += len(r["meta_pre"]["skipped"])
+    out.update(by_op=byop, streams=streams, dtypes=dtypes, history_steps=steps, history_steps_refused=skipped)
     return out
